@@ -1,6 +1,9 @@
 // C11  FIR and window designs meet their closed-form specifications.
 // fir1: length n+1 (n+2 for odd-order High/Bandstop), symmetry, |H(0)| = 1 (Low) / |H(1)| = 1 (High), Hamming-design masks
-//       (only when every band is wider than 16/(n+1); default window only), wrong custom-window length => std::exception.
+//       (only when every band is wider than 16/(n+1); default window and the Hamming window passed explicitly), wrong
+//       custom-window length => std::exception; a custom window is APPLIED (library Hamming => bit-identical to the
+//       default design, any other window => the default design re-windowed with one common factor S_ham/S_w);
+//       defaulted arguments (fir1 type, window sym / alpha / beta / r) forward the values written in the headers.
 // windows: closed forms evaluated in long double (Kaiser through an I0 series summed to convergence), range [0,1],
 //          exact mirror symmetry of the symmetric variant, periodic(n) == first n points of symmetric(n+1).
 // Nothing here shares code with dsplib: the response is the plain sum  H(f) = sum_k h[k] exp(-i pi f k)  in long double.
@@ -105,26 +108,48 @@ const char* tname(int t) {
 FilterType ftype(int t) { return t == T_LOW ? FilterType::Low : t == T_HIGH ? FilterType::High : t == T_BP ? FilterType::Bandpass : FilterType::Bandstop; }
 int expect_len(int n, int t) { return ((n % 2 == 1) && (t == T_HIGH || t == T_BS)) ? n + 2 : n + 1; }
 
-enum { W_DEFAULT = 0, W_RECT, W_HANN, W_KAISER, W_HAMMING, W_NKINDS };
+// W_DEFAULT .. W_HAMMING are the kinds of the original generators (W_NKINDS); W_BLACKMAN, W_LIBHAM (the library's own
+// window::hamming of the documented length) and W_RANDOM (seeded positive symmetric values) were added for
+// fir1_window_applied / the explicit-Hamming masks.
+enum { W_DEFAULT = 0, W_RECT, W_HANN, W_KAISER, W_HAMMING, W_NKINDS, W_BLACKMAN = W_NKINDS, W_LIBHAM, W_RANDOM, W_NALL };
 const char* wname(int k) {
-    static const char* n[] = {"default", "rect", "hann", "kaiser", "hamming"};
-    return (k >= 0 && k < W_NKINDS) ? n[k] : "?";
+    static const char* n[] = {"default", "rect", "hann", "kaiser", "hamming", "blackman", "lib-hamming", "random"};
+    return (k >= 0 && k < W_NALL) ? n[k] : "?";
 }
-// custom window of any length, values from the closed forms above rounded to double (independent of dsplib's windows)
-arr_real custom_window(int kind, int len, double beta) {
+// custom window of any length, values from the closed forms above rounded to double (independent of dsplib's windows);
+// W_LIBHAM: dsplib's own window::hamming(len); W_RANDOM: w[i] = w[len-1-i] uniform in [0.05, 2) from wseed, the centre
+// value of an odd-length window is `centre`
+arr_real custom_window(int kind, int len, double beta, uint64_t wseed = 0, double centre = 1.0) {
+    if (kind == W_LIBHAM && len >= 3) return window::hamming(len);
     std::vector<double> w(size_t(std::max(len, 0)), 1.0);
-    if (len >= 3 && kind != W_RECT) {
-        const int fam = kind == W_HANN ? F_HANN : kind == W_KAISER ? F_KAISER : F_HAMMING;
+    if (kind == W_RANDOM) {
+        Rng r(mix(wseed, 0xC11F));
+        for (int i = 0; i < len / 2; ++i) w[size_t(i)] = w[size_t(len - 1 - i)] = r.uni(0.05, 2.0);
+        if (len % 2) w[size_t(len / 2)] = centre;
+    } else if (len >= 3 && kind != W_RECT) {
+        const int fam = kind == W_HANN ? F_HANN : kind == W_KAISER ? F_KAISER : kind == W_BLACKMAN ? F_BLACKMAN : F_HAMMING;
         const ld i0b = fam == F_KAISER ? ld_i0(beta) : 0;
         for (int i = 0; i < len; ++i) w[size_t(i)] = double(win_ref(fam, len, i, beta, i0b));
     }
     return arr_real(w);
 }
 
+arr_real design_win(int n, int t, double w1, double w2, const arr_real& win) {
+    return (t == T_LOW || t == T_HIGH) ? fir1(n, w1, ftype(t), win) : fir1(n, w1, w2, ftype(t), win);
+}
 arr_real design(int n, int t, double w1, double w2, int wk, double beta, int wlen = -1) {
     if (wk == W_DEFAULT) return (t == T_LOW || t == T_HIGH) ? fir1(n, w1, ftype(t)) : fir1(n, w1, w2, ftype(t));
-    const arr_real win = custom_window(wk, wlen < 0 ? expect_len(n, t) : wlen, beta);
-    return (t == T_LOW || t == T_HIGH) ? fir1(n, w1, ftype(t), win) : fir1(n, w1, w2, ftype(t), win);
+    return design_win(n, t, w1, w2, custom_window(wk, wlen < 0 ? expect_len(n, t) : wlen, beta));
+}
+// class of a sampled order above 256: type x order parity x {default, custom window}
+std::string big_class(int n, int t, int wk) {
+    return fmt("n>256:%s:%s-order:%s window", tname(t), n % 2 ? "odd" : "even", wk ? "custom" : "default");
+}
+// k-th seed-chosen order in 257..2000 with the parity of k (so that both parities occur for every type / window class)
+int sampled_order(Rng& r, int k) {
+    int n = r.range(257, 2000);
+    if ((n & 1) != (k & 1)) n += (n < 2000 ? 1 : -1);
+    return n;
 }
 
 std::string dstr(int n, int t, double w1, double w2, int wk) {
@@ -214,6 +239,7 @@ static void shape_check(const Json& c, Out& o) {
     o.label(fmt("type:%s:%s-order", tname(t), par));
     o.label(std::string("window:") + wname(wk));
     o.label(n <= 256 ? "n:2..256" : "n:257..2000");
+    if (n > 256) o.label(big_class(n, t, wk));
 }
 static void shape_gen(Ctx& ctx) {
     // every order 2..256 x every grid cut-off 0.03..0.97 (Low/High) / grid pairs (band types), default window
@@ -221,13 +247,23 @@ static void shape_gen(Ctx& ctx) {
     for (int n = 2; n <= 256; ++n) orders.push_back(n);
     {
         Rng r(mix(ctx.seed, 0xC11A));
-        for (int k = 0; k < ctx.by_tier(12, 48); ++k) orders.push_back(r.range(257, 2000));
+        for (int k = 0; k < ctx.by_tier(12, 48); ++k) orders.push_back(sampled_order(r, k));   // alternating parity
     }
+    // sampled orders above 256: every cut-off additionally with one custom window of the documented length (kinds cycled),
+    // so that every class parity x type x {default, custom} occurs among them by construction
+    auto custom_too = [&](Json c, int n, int k) {
+        if (!ctx.mine()) return;
+        const int wk = W_RECT + (k + n) % (W_NKINDS - 1);
+        c.set("wk", wk);
+        if (wk == W_KAISER) c.set("beta", double((k * 7 + n) % 41));
+        ctx.eval(c);
+    };
     for (int n : orders) {
         const bool full = n <= 256;
         for (int t = 0; t < 4; ++t) {
             if (t == T_LOW || t == T_HIGH) {
                 for (int k = 3; k <= 97; ++k) {
+                    if (!full) custom_too(Json::object().set("n", n).set("type", t).set("w1", k / 100.0), n, k);
                     if (!ctx.mine()) continue;
                     ctx.eval(Json::object().set("n", n).set("type", t).set("w1", k / 100.0));
                 }
@@ -235,6 +271,7 @@ static void shape_gen(Ctx& ctx) {
                 for (int k1 = 3; k1 <= 96; ++k1)
                     for (int k2 = k1 + 1; k2 <= 97; ++k2) {
                         if (!full && ((k1 * 7 + k2 * 3 + n) % 16) != 0) continue;
+                        if (!full) custom_too(Json::object().set("n", n).set("type", t).set("w1", k1 / 100.0).set("w2", k2 / 100.0), n, k1 + k2);
                         if (!ctx.mine()) continue;
                         ctx.eval(Json::object().set("n", n).set("type", t).set("w1", k1 / 100.0).set("w2", k2 / 100.0));
                     }
@@ -261,9 +298,11 @@ static void shape_gen(Ctx& ctx) {
 // =========================================================================================== fir1: Hamming-design masks
 VK_SUB(mask, "fir1_mask");
 static void mask_check(const Json& c, Out& o) {
-    const int n = c.geti("n"), t = c.geti("type"), G = c.geti("grid");
+    // wk: 0 = default window (old cases), W_HAMMING = closed-form Hamming values passed explicitly, W_LIBHAM = the
+    // library's own window::hamming passed explicitly -- the masks are the Hamming-design masks in all three
+    const int n = c.geti("n"), t = c.geti("type"), G = c.geti("grid"), wk = c.geti("wk", 0);
     const double w1 = c.getd("w1"), w2 = c.getd("w2", 0);
-    const std::string d = dstr(n, t, w1, w2, 0);
+    const std::string d = dstr(n, t, w1, w2, wk);
     // bands (Nyquist = 1): edges 0 < e1 (< e2) < 1
     std::vector<ld> edges = {0, ld(w1)};
     if (t >= T_BP) edges.push_back(ld(w2));
@@ -273,7 +312,14 @@ static void mask_check(const Json& c, Out& o) {
     bool pre = true;
     for (size_t b = 0; b + 1 < edges.size(); ++b) pre &= (edges[b + 1] - edges[b] > minw);
     if (!pre) { o.label("precondition not met (claim vacuous)"); return; }
-    arr_real h = design(n, t, w1, w2, 0, 0);
+    arr_real h;
+    try {
+        h = design(n, t, w1, w2, wk, 0);
+    } catch (const std::exception& e) {
+        if (wk == 0) throw;
+        o.fail(std::string("fir1:threw:") + tname(t), d + " with a window of the documented length threw: " + e.what());
+        return;
+    }
     if (h.size() != expect_len(n, t)) { o.fail(fmt("fir1:length:%s:%s", tname(t), n % 2 ? "odd" : "even"), fmt("%s returned %d taps", d.c_str(), h.size())); return; }
     if (!all_finite(h)) { o.fail(fmt("fir1:nonfinite:%s", tname(t)), d + " returned a non-finite tap"); return; }
     const std::vector<ld> hl = to_ld(h);
@@ -296,14 +342,17 @@ static void mask_check(const Json& c, Out& o) {
     o.metric("pass-band deviation/0.02", double(worst_pass / 0.02L));
     o.metric("stop-band level/0.02", double(worst_stop / 0.02L));
     const char* par = n % 2 ? "odd" : "even";
+    const char* xs = wk ? ":explicit-hamming" : "";
     if (!(worst_pass <= 0.02L))
-        o.fail(fmt("fir1:mask:pass:%s:%s", tname(t), par), fmt("%s: ||H(%.6Lg)|-1| = %.4Lg > 0.02 (grid %d, bands wider than 16/(n+1)=%.4Lg)", d.c_str(), ld(jp) / ld(G - 1), worst_pass, G, minw));
+        o.fail(fmt("fir1:mask:pass:%s:%s%s", tname(t), par, xs), fmt("%s: ||H(%.6Lg)|-1| = %.4Lg > 0.02 (grid %d, bands wider than 16/(n+1)=%.4Lg)", d.c_str(), ld(jp) / ld(G - 1), worst_pass, G, minw));
     if (!(worst_stop < 0.02L))
-        o.fail(fmt("fir1:mask:stop:%s:%s", tname(t), par), fmt("%s: |H(%.6Lg)| = %.4Lg >= 0.02 (grid %d, bands wider than 16/(n+1)=%.4Lg)", d.c_str(), ld(js) / ld(G - 1), worst_stop, G, minw));
-    if (npass > 0 && nstop > 0) o.nontrivial(key_of(n, t, cut_bucket(w1), cut_bucket(w2)));
+        o.fail(fmt("fir1:mask:stop:%s:%s%s", tname(t), par, xs), fmt("%s: |H(%.6Lg)| = %.4Lg >= 0.02 (grid %d, bands wider than 16/(n+1)=%.4Lg)", d.c_str(), ld(js) / ld(G - 1), worst_stop, G, minw));
+    if (npass > 0 && nstop > 0) o.nontrivial(wk ? key_of(n, t, cut_bucket(w1), cut_bucket(w2), wk) : key_of(n, t, cut_bucket(w1), cut_bucket(w2)));
     o.label(fmt("type:%s:%s-order", tname(t), par));
     o.label(n <= 256 ? "n:32..256" : "n:257..2000");
     o.label(c.gets("cls", "grid cut-offs"));
+    o.label(std::string("window:") + (wk ? wname(wk) : "default") + (wk ? " passed explicitly" : ""));
+    if (n > 256) o.label(big_class(n, t, wk));
 }
 static void mask_gen(Ctx& ctx) {
     const int G = ctx.by_tier(512, 4096);
@@ -332,7 +381,7 @@ static void mask_gen(Ctx& ctx) {
     }
     // random orders to 2000, random cut-offs placed so that the precondition holds by construction; classes put one
     // band at its minimum admissible width (where the mask is tightest)
-    ctx.rc("random", ctx.by_tier(120000, 200000), [&]() {
+    auto draw = [&](bool explicit_window) {
         int t = pick(0, 3);
         int cls = pick(0, 3);
         int n = pick_log(t >= T_BP ? 49 : 33, 2000);
@@ -353,8 +402,12 @@ static void mask_gen(Ctx& ctx) {
             c.set("w1", a).set("w2", a + m + s * x2);
         }
         c.set("grid", G).set("cls", cn[cls]);
+        if (explicit_window) c.set("wk", flip() ? int(W_HAMMING) : int(W_LIBHAM));
         return c;
-    });
+    };
+    ctx.rc("random", ctx.by_tier(120000, 200000), [&]() { return draw(false); });
+    // the same masks with the Hamming window passed explicitly (closed-form values / the library's own window::hamming)
+    ctx.rc("explicit-hamming", ctx.by_tier(30000, 60000), [&]() { return draw(true); });
 }
 
 // =========================================================================================== fir1: custom window length
@@ -386,13 +439,14 @@ static void wlen_check(const Json& c, Out& o) {
     o.label(fmt("type:%s:%s-order", tname(t), par));
     o.label(len == R ? "right length" : fmt("wrong length R%+d", len - R > 3 ? 99 : len - R < -3 ? -99 : len - R));
     o.label(std::string("window:") + wname(wk));
+    if (n > 256) o.label(big_class(n, t, wk));
 }
 static void wlen_gen(Ctx& ctx) {
     std::vector<int> orders;
     for (int n = 2; n <= ctx.by_tier(128, 256); ++n) orders.push_back(n);
     {
         Rng r(mix(ctx.seed, 0xC11B));
-        for (int k = 0; k < ctx.by_tier(32, 128); ++k) orders.push_back(r.range(257, 2000));
+        for (int k = 0; k < ctx.by_tier(32, 128); ++k) orders.push_back(sampled_order(r, k));   // alternating parity
     }
     for (int n : orders)
         for (int t = 0; t < 4; ++t) {
@@ -563,6 +617,279 @@ static void wper_gen(Ctx& ctx) {
         int n = pick(0, 2) == 0 ? pick(3, 512) : pick_log(3, 100000);
         Json c = Json::object().set("fam", fam).set("n", n);
         if (fam == F_GAUSS) c.set("p", pickd(0.5, 6));
+        return c;
+    });
+}
+
+// =========================================================================================== fir1: a custom window is applied
+// lib/fir.cpp builds every design on _lowpass_fir(n', fc, win):  g[i] = fl(sin(2 pi fc t_i)/t_i) * win[i] for the first half
+// (t_i = i - n'/2), mirrored into the second half; for even n' the centre tap is 2 pi fc (win[n'/2] is not used);
+// h = g / sum(g) (std::accumulate in double).  Low: n' = n, fc = wn/2.  High: n' = n + (n odd), fc = (1-wn)/2, every second
+// tap negated.  Bandpass: fc = (wn2/2 - wn1/2)/2, h = 2 h_lp cos(2 pi wc t).  Bandstop: n' = n + (n odd), h = -h_bp, centre + 1.
+// The default overloads call exactly this code with window::hamming(n'+1).  With s_i = fl(sin/t) bit-identical in both calls,
+//     h_custom[i] * ham[i] = k * h_default[i] * w[i],   k = S_ham / S_w,   S_x = sum_i s_i x[i] (+ 2 pi fc x[n'/2], n' even)
+// for every tap i (Bandstop centre: 1 - h in place of h): ONE factor, fixed by the unit-DC-gain normalisation of the
+// low-pass prototype.  S_x is computed here in long double from the window values; the library's double sum differs from it
+// by at most errS = eps (2 pi fc sum|x| + (M/2 + 2) sum|s_i x_i|) (argument rounding of the sine, M-term recursive summation).
+// Tolerance per tap: (8 eps + errS_w/|S_w| + errS_ham/|S_ham|) max(|lhs|,|rhs|)  (+ eps (|h| terms) for the Bandstop centre).
+namespace {
+struct NormSum { ld S{0}, err{0}; };
+NormSum norm_sum(int np, double fc, const arr_real& x) {
+    const int M = np + 1, L = M / 2;
+    const ld c = 2 * PI_L * ld(fc);
+    ld S = 0, A = 0, W = 0;
+    for (int i = 0; i < L; ++i) {
+        const ld t = ld(i) - ld(np) / 2;
+        const ld sx = sinl(c * t) / t * ld(x[i]);
+        S += 2 * sx;
+        A += 2 * std::fabs(sx);
+        W += 2 * std::fabs(ld(x[i]));
+    }
+    if (np % 2 == 0) { S += c * ld(x[L]); A += std::fabs(c * ld(x[L])); }
+    NormSum r;
+    r.S = S;
+    r.err = ld(EPS) * (c * W + (ld(M) / 2 + 2) * A);
+    return r;
+}
+bool same_bits(const arr_real& a, const arr_real& b, int& at) {
+    at = -1;
+    if (a.size() != b.size()) return false;
+    for (int i = 0; i < a.size(); ++i)
+        if (std::memcmp(&a[i], &b[i], sizeof(double)) != 0) { at = i; return false; }
+    return true;
+}
+}   // namespace
+
+VK_SUB(wapp, "fir1_window_applied");
+static void wapp_check(const Json& c, Out& o) {
+    const int n = c.geti("n"), t = c.geti("type"), wk = c.geti("wk");
+    const double w1 = c.getd("w1"), w2 = c.getd("w2", 0), beta = c.getd("beta", 0), centre = c.getd("centre", 1.0);
+    const uint64_t wseed = c.has("wseed") ? c.getu("wseed") : 0;
+    const std::string d = dstr(n, t, w1, w2, wk);
+    const int M = expect_len(n, t), np = M - 1, L = M / 2;
+    const char* par = n % 2 ? "odd" : "even";
+    const arr_real w = custom_window(wk, M, beta, wseed, centre);
+    const arr_real ham = window::hamming(M);
+    arr_real hc, hd;
+    try {
+        hd = design(n, t, w1, w2, W_DEFAULT, 0);
+        hc = design_win(n, t, w1, w2, w);
+    } catch (const std::exception& e) {
+        o.fail(std::string("fir1:threw:") + tname(t), d + " with a window of the documented length threw: " + e.what());
+        return;
+    }
+    if (hc.size() != M || hd.size() != M) { o.fail(fmt("fir1:length:%s:%s", tname(t), par), fmt("%s returned %d taps, default design %d, expected %d", d.c_str(), hc.size(), hd.size(), M)); return; }
+    if (!all_finite(hc) || !all_finite(hd)) { o.fail(fmt("fir1:nonfinite:%s", tname(t)), d + " returned a non-finite tap"); return; }
+    o.label(fmt("type:%s:%s-order", tname(t), par));
+    o.label(std::string("window:") + wname(wk));
+    o.label(n <= 256 ? "n:2..256" : "n:257..2000");
+    if (n > 256) o.label(big_class(n, t, wk));
+    if (wk == W_LIBHAM) {
+        // (a) the default overload forwards window::hamming(n'+1) to the custom-window overload: same code, same bits
+        int at;
+        if (!same_bits(hc, hd, at))
+            o.fail(fmt("fir1:window-applied:lib-hamming-differs:%s", tname(t)), fmt("%s with window::hamming(%d): tap %d = %.17g, default design %.17g (must be bit-identical)", d.c_str(), M, at, hc[std::max(at, 0)], hd[std::max(at, 0)]));
+        o.nontrivial(key_of(n, t, cut_bucket(w1), cut_bucket(w2), wk));
+        o.label("library Hamming passed explicitly == default design (bit-exact)");
+        return;
+    }
+    // (b) re-windowing relation
+    double fc;
+    if (t == T_LOW) fc = w1 / 2;
+    else if (t == T_HIGH) fc = (1 - w1) / 2;
+    else { const double a = w1 / 2, b = w2 / 2; fc = (b - a) / 2; }
+    const NormSum sw = norm_sum(np, fc, w), sh = norm_sum(np, fc, ham);
+    const bool centre_off = (np % 2 == 0) && std::fabs(w[L] - 1) > 4 * EPS;
+    if (!(std::fabs(sw.S) > 0) || !(std::fabs(sh.S) > 0)) { o.discard = true; return; }
+    const ld rel = 8 * ld(EPS) + sw.err / std::fabs(sw.S) + sh.err / std::fabs(sh.S);
+    if (!(rel < 1e-6L)) { o.discard = true; return; }   // normalising sum cancels: the design itself is ill-conditioned in w
+    const ld k = sh.S / sw.S;
+    ld worst = 0, lhs_w = 0, rhs_w = 0, tol_w = 0, bmax = 0;
+    int wi = -1;
+    for (int i = 0; i < M; ++i) {
+        ld xc = ld(hc[i]), xd = ld(hd[i]), extra = 0;
+        if (t == T_BS && i == np / 2) {   // np is even for every Bandstop design; undo "centre + 1" (one rounding of |h| each)
+            extra = ld(EPS) * (std::fabs(xc) * ld(ham[i]) + std::fabs(k) * std::fabs(xd) * ld(w[i]));
+            xc = 1 - xc;
+            xd = 1 - xd;
+        }
+        const ld lhs = xc * ld(ham[i]), rhs = k * xd * ld(w[i]);
+        const ld tol = rel * std::max(std::fabs(lhs), std::fabs(rhs)) + extra;
+        const ld e = std::fabs(lhs - rhs);
+        bmax = std::max(bmax, std::fabs(rhs));
+        const ld q = tol > 0 ? e / tol : (e > 0 ? 1e300L : 0);
+        if (q > worst || wi < 0) { worst = q; wi = i; lhs_w = lhs; rhs_w = rhs; tol_w = tol; }
+    }
+    o.metric("re-window err/tol", double(worst));
+    o.metric("re-window rel tol / eps", double(rel / ld(EPS)));
+    if (!(worst <= 1)) {
+        const std::string sig = centre_off ? fmt("fir1:window-applied:centre-weight-ignored:%s", tname(t)) : fmt("fir1:window-applied:%s:%s", tname(t), par);
+        o.fail(sig, fmt("%s, window %s%s: tap %d: h_custom*hamming = %.17Lg but (S_ham/S_w) h_default*w = %.17Lg (factor %.17Lg, w[%d] = %.17g, |diff| = %.3Lg > tol %.3Lg)%s", d.c_str(), wname(wk),
+                        wk == W_RANDOM ? fmt(" seed %llu", (unsigned long long)wseed).c_str() : "", wi, lhs_w, rhs_w, k, wi, w[wi], std::fabs(lhs_w - rhs_w), tol_w,
+                        centre_off ? fmt(" [window centre value %.17g != 1 at even effective order %d]", w[L], np).c_str() : ""));
+    }
+    if (bmax > 0) o.nontrivial(key_of(n, t, cut_bucket(w1), cut_bucket(w2), wk));
+    if (wk == W_RANDOM && np % 2 == 0 && !centre_off)
+        o.label("excluded:random window with centre weight != 1 at even effective order (library ignores win[n'/2]) - centre forced to 1");
+    if (centre_off) o.label("window centre weight != 1 at even effective order (replay only)");
+}
+static void wapp_gen(Ctx& ctx) {
+    static const int kinds[] = {W_LIBHAM, W_HAMMING, W_HANN, W_BLACKMAN, W_KAISER, W_RECT, W_RANDOM};
+    std::vector<int> orders;
+    for (int n = 2; n <= 256; ++n) orders.push_back(n);
+    {
+        Rng r(mix(ctx.seed, 0xC11E));
+        for (int k = 0; k < ctx.by_tier(16, 64); ++k) orders.push_back(sampled_order(r, k));
+    }
+    // every order 2..256 (+ sampled to 2000, alternating parity) x 4 types x 7 window kinds x 3 seeded cut-offs (pairs)
+    for (int n : orders)
+        for (int t = 0; t < 4; ++t)
+            for (int wk : kinds)
+                for (int j = 0; j < 3; ++j) {
+                    if (!ctx.mine()) continue;
+                    Rng r(mix(ctx.seed, key_of(n, t, wk, j, 0xA9)));
+                    double a = r.uni(0.021, 0.979), b = r.uni(0.021, 0.979);
+                    if (a > b) std::swap(a, b);
+                    if (b - a < 1e-3) { a = 0.3; b = 0.6; }
+                    Json c = Json::object().set("n", n).set("type", t).set("w1", a);
+                    if (t >= T_BP) c.set("w2", b);
+                    c.set("wk", wk);
+                    if (wk == W_KAISER) c.set("beta", j == 0 ? 0.0 : r.uni(0, 40));
+                    if (wk == W_RANDOM) c.set("wseed", r.next() >> 12);
+                    ctx.eval(c);
+                }
+    ctx.rc("random", ctx.by_tier(40000, 400000), [&]() {
+        int wk = kinds[pick(0, 6)];
+        int t = pick(0, 3);
+        int n = pick(0, 3) == 0 ? pick(2, 64) : pick_log(2, 2000);
+        double a = 0.02 + 0.96 * (double(pick(1, (1 << 20) - 1)) / double(1 << 20));
+        double b = 0.02 + 0.96 * (double(pick(1, (1 << 20) - 1)) / double(1 << 20));
+        if (a > b) std::swap(a, b);
+        if (a == b) b = std::min(0.9799, b + 1e-3), a = std::min(a, b - 1e-4);
+        Json c = Json::object().set("n", n).set("type", t).set("w1", a);
+        if (t >= T_BP) c.set("w2", b);
+        c.set("wk", wk);
+        if (wk == W_KAISER) c.set("beta", pick(0, 7) == 0 ? 0.0 : pickd(0, 40));
+        if (wk == W_RANDOM) c.set("wseed", seed64() >> 12);
+        return c;
+    });
+}
+
+// =========================================================================================== defaulted arguments forward the header defaults
+// include/dsplib/fir.h:  fir1(int n, real_t wn, FilterType ftype = FilterType::Low),
+//                        fir1(int n, real_t wn1, real_t wn2, FilterType ftype = FilterType::Bandpass)
+// include/dsplib/window.h: cosine/hann/hamming/blackman/blackmanharris(int n, bool sym = true),
+//                        gauss(int n, real_t alpha = 2.5, bool sym = true), kaiser(int n, real_t beta = 0.5), tukey(int n, real_t r = 0.5)
+// The short call must return the same bits as the call with these values written out (correctness of the explicit calls is
+// decided by the other sub-checks; this one only pins that the short forms forward the documented defaults).
+enum { D_FIR_LOW = 0, D_FIR_BP, D_WIN, D_GAUSS_SYM, D_NAPI };
+VK_SUB(dflt, "default_arguments");
+static void dflt_check(const Json& c, Out& o) {
+    const int api = c.geti("api"), n = c.geti("n"), fam = c.geti("fam", 0);
+    const double w1 = c.getd("w1", 0), w2 = c.getd("w2", 0), p = c.getd("p", 0);
+    arr_real s, e;
+    std::string what, sig;
+    switch (api) {
+    case D_FIR_LOW:
+        s = fir1(n, w1);
+        e = fir1(n, w1, FilterType::Low);
+        what = fmt("fir1(%d, %.17g) vs fir1(%d, %.17g, FilterType::Low)", n, w1, n, w1);
+        sig = "default-arg:fir1:type-low";
+        break;
+    case D_FIR_BP:
+        s = fir1(n, w1, w2);
+        e = fir1(n, w1, w2, FilterType::Bandpass);
+        what = fmt("fir1(%d, %.17g, %.17g) vs fir1(%d, %.17g, %.17g, FilterType::Bandpass)", n, w1, w2, n, w1, w2);
+        sig = "default-arg:fir1:type-bandpass";
+        break;
+    case D_GAUSS_SYM:
+        s = window::gauss(n, p);
+        e = window::gauss(n, p, true);
+        what = fmt("window::gauss(%d, %.17g) vs window::gauss(%d, %.17g, true)", n, p, n, p);
+        sig = "default-arg:window:gauss:sym";
+        break;
+    default:
+        switch (fam) {
+        case F_HANN: s = window::hann(n); e = window::hann(n, true); break;
+        case F_HAMMING: s = window::hamming(n); e = window::hamming(n, true); break;
+        case F_BLACKMAN: s = window::blackman(n); e = window::blackman(n, true); break;
+        case F_BLACKMANHARRIS: s = window::blackmanharris(n); e = window::blackmanharris(n, true); break;
+        case F_COSINE: s = window::cosine(n); e = window::cosine(n, true); break;
+        case F_GAUSS: s = window::gauss(n); e = window::gauss(n, 2.5, true); break;
+        case F_TUKEY: s = window::tukey(n); e = window::tukey(n, 0.5); break;
+        default: s = window::kaiser(n); e = window::kaiser(n, 0.5); break;
+        }
+        what = fam == F_GAUSS ? fmt("window::gauss(%d) vs window::gauss(%d, 2.5, true)", n, n)
+               : fam == F_TUKEY ? fmt("window::tukey(%d) vs window::tukey(%d, 0.5)", n, n)
+               : fam == F_KAISER ? fmt("window::kaiser(%d) vs window::kaiser(%d, 0.5)", n, n)
+                                 : fmt("window::%s(%d) vs window::%s(%d, true)", fam_name(fam), n, fam_name(fam), n);
+        sig = std::string("default-arg:window:") + fam_name(fam);
+        break;
+    }
+    int at;
+    if (!same_bits(s, e, at)) {
+        if (at < 0) o.fail(sig, fmt("%s: %d values vs %d values", what.c_str(), s.size(), e.size()));
+        else o.fail(sig, fmt("%s: value %d is %.17g vs %.17g (must be bit-identical)", what.c_str(), at, s[at], e[at]));
+    }
+    if (s.size() > 0) o.nontrivial(key_of(api, fam, n, cut_bucket(w1), cut_bucket(w2)));
+    o.label(api == D_FIR_LOW ? "fir1(n, wn): type defaults to Low" : api == D_FIR_BP ? "fir1(n, wn1, wn2): type defaults to Bandpass"
+            : api == D_GAUSS_SYM ? "window::gauss(n, alpha): sym defaults to true"
+            : fam == F_GAUSS ? "window::gauss(n): alpha = 2.5, sym = true" : fam == F_TUKEY ? "window::tukey(n): r = 0.5" : fam == F_KAISER ? "window::kaiser(n): beta = 0.5"
+                             : fmt("window::%s(n): sym defaults to true", fam_name(fam)));
+    o.label(api <= D_FIR_BP ? (n <= 256 ? (n % 2 ? "fir1 n:2..256 odd" : "fir1 n:2..256 even") : (n % 2 ? "fir1 n:257..2000 odd" : "fir1 n:257..2000 even")) : nclass(n));
+}
+static void dflt_gen(Ctx& ctx) {
+    // fir1 short forms: every order 2..256 + sampled to 2000 x 2 seeded cut-offs (pairs)
+    std::vector<int> orders;
+    for (int n = 2; n <= 256; ++n) orders.push_back(n);
+    {
+        Rng r(mix(ctx.seed, 0xC120));
+        for (int k = 0; k < ctx.by_tier(16, 64); ++k) orders.push_back(sampled_order(r, k));
+    }
+    for (int n : orders)
+        for (int api = D_FIR_LOW; api <= D_FIR_BP; ++api)
+            for (int j = 0; j < 2; ++j) {
+                if (!ctx.mine()) continue;
+                Rng r(mix(ctx.seed, key_of(n, api, j, 0xD1)));
+                double a = r.uni(0.021, 0.979), b = r.uni(0.021, 0.979);
+                if (a > b) std::swap(a, b);
+                if (b - a < 1e-3) { a = 0.3; b = 0.6; }
+                Json c = Json::object().set("api", api).set("n", n).set("w1", a);
+                if (api == D_FIR_BP) c.set("w2", b);
+                ctx.eval(c);
+            }
+    // window short forms: every length 3..512 + sampled to 1e5 x 8 families (+ gauss(n, alpha) with sym defaulted)
+    std::vector<int> lens;
+    for (int n = 3; n <= 512; ++n) lens.push_back(n);
+    {
+        Rng r(mix(ctx.seed, 0xC121));
+        for (int k = 0; k < ctx.by_tier(8, 32); ++k) lens.push_back(int(std::floor(std::pow(10.0, r.uni(std::log10(513.0), 5.0)))));
+    }
+    for (int n : lens)
+        for (int fam = 0; fam <= F_NFAM; ++fam) {
+            if (!ctx.mine()) continue;
+            if (fam < F_NFAM) ctx.eval(Json::object().set("api", int(D_WIN)).set("n", n).set("fam", fam));
+            else {
+                Rng r(mix(ctx.seed, key_of(n, 0xD2)));
+                ctx.eval(Json::object().set("api", int(D_GAUSS_SYM)).set("n", n).set("fam", int(F_GAUSS)).set("p", r.uni(0.5, 6.0)));
+            }
+        }
+    ctx.rc("random", ctx.by_tier(8000, 80000), [&]() {
+        int api = pick(0, D_NAPI - 1);
+        Json c = Json::object().set("api", api);
+        if (api <= D_FIR_BP) {
+            int n = pick_log(2, 2000);
+            double a = 0.02 + 0.96 * (double(pick(1, (1 << 20) - 1)) / double(1 << 20));
+            double b = 0.02 + 0.96 * (double(pick(1, (1 << 20) - 1)) / double(1 << 20));
+            if (a > b) std::swap(a, b);
+            if (a == b) b = std::min(0.9799, b + 1e-3), a = std::min(a, b - 1e-4);
+            c.set("n", n).set("w1", a);
+            if (api == D_FIR_BP) c.set("w2", b);
+        } else {
+            c.set("n", pick_log(3, 100000));
+            if (api == D_GAUSS_SYM) c.set("fam", int(F_GAUSS)).set("p", pickd(0.5, 6));
+            else c.set("fam", pick(0, F_NFAM - 1));
+        }
         return c;
     });
 }
